@@ -7,7 +7,7 @@
    reachable from the documented in-place arguments (computed here, not by the harness) unless the skeleton itself
    is rejected by `safe_with flags` (it then models a known defect of the code as it is). *)
 From Coq Require Import List Arith ZArith Bool.
-From TLV Require Import Model.Effects Corr.Common.
+From TLV Require Import Model.Effects Model.EffectsR7 Corr.Common.
 Import ListNotations.
 
 Inductive skel :=
@@ -23,7 +23,11 @@ Inductive skel :=
 | KTryActiveSet | KTryEntropy | KTryModesToList | KTryTtCross
 | KCpClassFit (N sweeps fmlen : nat) (rm : option nat) (modes : list nat)
 | KHalsClassFit (N sweeps sclen fmlen : nat) (fixed modes : list nat)
-| KTuckerClassFit (N sweeps : nat) (modes : list nat).
+| KTuckerClassFit (N sweeps : nat) (modes : list nat)
+(* round 7: non_negative_tucker / initialize_tucker(non_negative=True) with a user init; monotonicity_prox / unimodality_prox *)
+| KNnTuckerN (N sweeps : nat) (normalize : bool) (modes : list nat) | KInitTuckerNnN (N : nat)
+| KMonoProx (dec vec : bool) (rows cols : nat) | KUnimodalProx (vec : bool) (rows cols : nat)
+| KXNnTuckerHalsActiveSet.
 
 Definition skeleton (k : skel) : cmd :=
   match k with
@@ -61,6 +65,11 @@ Definition skeleton (k : skel) : cmd :=
   | KCpClassFit N sweeps fmlen rm modes => sk_estimator_fit 3 (sk_parafac_gen N sweeps fmlen rm modes) 25
   | KHalsClassFit N sweeps sclen fmlen fixed modes => sk_estimator_fit 3 (sk_nn_parafac_hals_gen N sweeps sclen fmlen fixed modes) 25
   | KTuckerClassFit N sweeps modes => sk_estimator_fit 2 (sk_tucker_gen N sweeps modes) 25
+  | KNnTuckerN N sweeps normalize modes => sk_nn_tucker_gen N sweeps normalize modes
+  | KInitTuckerNnN N => sk_initialize_tucker_nn_gen N
+  | KMonoProx dec vec rows cols => sk_monotonicity_prox dec vec rows cols
+  | KUnimodalProx vec rows cols => sk_unimodality_prox vec rows cols
+  | KXNnTuckerHalsActiveSet => Skip      (* an xcmd kind: see xcmd_of *)
   end.
 
 (* entry points that CATCH exceptions: (pre, try-body, handler, rest) of Model.Effects *)
@@ -76,6 +85,10 @@ Definition try_of (k : skel) : option tryprog :=
 (* ... and, where the try statement sits inside a sweep, the program with one try per sweep (any oracle: Props C15_frame_tcmd) *)
 Definition tcmd_of (k : skel) : option tcmd :=
   match k with KTryActiveSet => Some tc_active_set_nnls | _ => None end.
+
+(* entry points whose CALLEE catches exceptions (Model.EffectsR7.xcmd; any oracle: Props C15_frame_xcmd) *)
+Definition xcmd_of (k : skel) : option xcmd :=
+  match k with KXNnTuckerHalsActiveSet => Some xc_nn_tucker_hals_active_set | _ => None end.
 
 (* region reachable from the in-place arguments: Model.Effects.inplace_region, accepted only together with its closure
    certificate region_closed (then it is exactly `reach`: Props C15_region_exact) *)
@@ -118,6 +131,9 @@ Definition agree (c : case) : bool :=
   match k with
   | None => region_ok h args flags observed
   | Some s =>
+      match xcmd_of s with
+      | Some t => xsafe_with flags t && region_ok h args flags observed
+      | None =>
       match try_of s with
       | Some (pre, c, hd, rest) =>
           (* an entry point with a try statement: accepted by the proved check `safe_tryprog`, and every object observed to
@@ -132,6 +148,7 @@ Definition agree (c : case) : bool :=
       (if interrupted then forallb (fun o => existsb (memb o) (interrupted_footprints (skeleton s) args h)) observed
        else nat_list_eqb (footprint (skeleton s) args h) observed) &&
       (negb (safe_with flags (skeleton s)) || region_ok h args flags observed)
+      end
       end
   end.
 Definition ident (c : case) : Z := let '(i, _, _, _, _, _, _) := c in i.
